@@ -105,7 +105,10 @@ fn point_indices(e: u32) -> Vec<u64> {
 fn points_case(e: u32, idxs: &[u64]) -> (String, Option<String>) {
     let t = if e >= 1 { e - 1 } else { 0 };
     let c = e - t;
-    let d = StarkDomains::new(fu(t as u64), fu(c as u64));
+    let d = match panics::catch(|| StarkDomains::new(fu(t as u64), fu(c as u64))) {
+        Ok(d) => d,
+        Err(p) => return ("domain-panic".into(), Some(format!("StarkDomains::new({}, {}) panicked: {}", t, c, p.site()))),
+    };
     let w = f2b(&d.eval_generator);
     let qs: Vec<Felt> = idxs.iter().map(|&i| fu(i)).collect();
     let pts = match panics::catch(|| queries_to_points(&qs, &d)) {
